@@ -354,6 +354,12 @@ def judgeCase (S : Schema) (inp obs : Json) : Except String Verdict := do
   let vt2pb ← getDec obs "vt2pb"
   let pb2pb ← getDec obs "pb2pb"
   let vt2vt ← getDec obs "vt2vt"
+  -- plain proto.Marshal (default options), the call the ttRPC codec makes
+  let pbdHex := getStrD obs "pbd"
+  let pbdErr := getStrD obs "pbd_err"
+  let pbd ← unhex pbdHex
+  let pbd2vt ← getDec obs "pbd2vt"
+  let pbd2pb ← getDec obs "pbd2pb"
   let leanErr := getStrD obs "lean_err"
   let leanObs ← getArr obs "lean"
   -- model
@@ -367,11 +373,14 @@ def judgeCase (S : Schema) (inp obs : Json) : Except String Verdict := do
   if buildErr != "" then
     specFails := specFails ++ [("build", s!"the message cannot be constructed through protobuf reflection: {buildErr}")]
   if !hasVT && buildErr == "" then specFails := specFails ++ [("no-vt-codec", "the message type has no MarshalVT/UnmarshalVT/SizeVT")]
-  if pbErr != "" && buildErr == "" then specFails := specFails ++ [("encoder-error:proto", s!"proto.Marshal failed ({pbErr})")]
+  if pbErr != "" && buildErr == "" then specFails := specFails ++ [("encoder-error:proto", s!"proto.Marshal (deterministic) failed ({pbErr})")]
+  if pbdErr != "" && buildErr == "" then specFails := specFails ++ [("encoder-error:proto-default", s!"proto.Marshal failed ({pbdErr})")]
   if vtErr != "" && buildErr == "" then specFails := specFails ++ [("encoder-error:vt", s!"MarshalVT failed ({vtErr})")]
   if vtErr == "" && sizeVT != (vt.length : Int) then
     specFails := specFails ++ [("size", s!"SizeVT = {sizeVT} but MarshalVT wrote {vt.length} bytes")]
-  for (k, d, txt) in [("cross:pb->vt", pb2vt, "UnmarshalVT(proto.Marshal(m))"),
+  for (k, d, txt) in [("cross:pb-default->vt", pbd2vt, "UnmarshalVT(proto.Marshal(m)) [default options, as ttRPC]"),
+                      ("self:pb-default->pb", pbd2pb, "proto.Unmarshal(proto.Marshal(m)) [default options]"),
+                      ("cross:pb->vt", pb2vt, "UnmarshalVT(proto.Marshal(m))"),
                       ("cross:vt->pb", vt2pb, "proto.Unmarshal(MarshalVT(m))"),
                       ("self:pb->pb", pb2pb, "proto.Unmarshal(proto.Marshal(m))"),
                       ("self:vt->vt", vt2vt, "UnmarshalVT(MarshalVT(m))")] do
@@ -409,6 +418,21 @@ def judgeCase (S : Schema) (inp obs : Json) : Except String Verdict := do
     for (d, w) in [(pb2vt, "proto bytes/UnmarshalVT"), (pb2pb, "proto bytes/proto.Unmarshal")] do
       if let some e ← sameDecode S m pb d v w then dis := dis ++ [e]
   else if wt then dis := dis ++ [s!"proto.Marshal rejects ({pbErr}) a value the model holds well-typed"]
+  -- default-options proto.Marshal walks Go maps in random order (a different library routine
+  -- than the deterministic one): judged as MarshalVT is — the Lean encoding of what it decodes
+  -- to, equal to the value up to map-entry order
+  if pbdErr == "" then
+    if pbd.length != sz then dis := dis ++ [s!"Lean size {sz} ≠ length {pbd.length} of proto.Marshal (default options)"]
+    match decode S m pbd with
+    | some lv =>
+      if encode S m lv != pbd then dis := dis ++ ["proto.Marshal (default options) bytes are not the Lean encoding of the value they decode to"]
+      if wt && !msgBeq (canonMsg lv) cv then
+        dis := dis ++ [s!"Lean decode(proto.Marshal default bytes) ≠ value at {(diffMsg S m "" (canonMsg lv) cv).getD "?"}"]
+    | none => dis := dis ++ ["Lean decode rejects the proto.Marshal (default options) bytes"]
+    for (d, w) in [(pbd2vt, "proto default bytes/UnmarshalVT"), (pbd2pb, "proto default bytes/proto.Unmarshal")] do
+      if let some e ← sameDecode S m pbd d v w then dis := dis ++ [e]
+  else if wt then dis := dis ++ [s!"proto.Marshal (default options) rejects ({pbdErr}) a value the model holds well-typed"]
+  else if pbdErr != pbErr then dis := dis ++ [s!"proto.Marshal default ({pbdErr}) and deterministic ({pbErr}) fail differently"]
   if vtErr == "" then
     if sizeVT != (sz : Int) then dis := dis ++ [s!"Lean size {sz} ≠ SizeVT {sizeVT}"]
     match decode S m vt with
@@ -488,13 +512,25 @@ def judgeRaw (S : Schema) (inp obs : Json) : Except String Verdict := do
           if !msgBeq (canonMsg lv) (canonMsg gv) then
             dis := dis ++ [s!"{w} ≠ Lean decode at {(diffMsg S m "" (canonMsg lv) (canonMsg gv)).getD "?"}"]
         | .error e => dis := dis ++ [s!"{w}: undumpable ({e})"]
-  | none => pure ()
+  | none =>
+    -- the model is the stricter of the two Go decoders at every point but one (unknown groups,
+    -- which it does not model): what it rejects, at least one Go decoder rejects
+    if cls != "group" && pb.ok && vt.ok then
+      dis := dis ++ ["both Go decoders accept bytes the Lean decoder rejects"]
   -- do the two Go decoders agree with each other? (recorded only)
   let goSame : String :=
     if pb.ok && vt.ok then (if pb.dump == vt.dump then "same-value" else "DIFFERENT-VALUES")
     else if !pb.ok && !vt.ok then "both-reject" else "one-rejects"
   let st (d : Dec) : String := if d.ok then (if d.unknown > 0 then "ok+unknown" else "ok") else d.err
-  let sig := s!"raw:{cls}: lean={if lean.isSome then "ok" else "reject"} proto.Unmarshal={st pb} UnmarshalVT={st vt} go:{goSame}"
+  -- does a decoder that accepts what the model rejects also STORE something (tag aliasing)?
+  let stores (d : Dec) : Bool := d.ok && (match parseMsg S m d.dump with
+    | .ok gv => !msgBeq (canonMsg gv) (canonMsg (emptyMsg S m))
+    | .error _ => false)
+  let alias : String :=
+    if lean.isNone && cls == "bigfield" then
+      (if stores vt then " UnmarshalVT-stores-a-value" else "") ++ (if stores pb then " proto.Unmarshal-stores-a-value" else "")
+    else ""
+  let sig := s!"raw:{cls}: lean={if lean.isSome then "ok" else "reject"} proto.Unmarshal={st pb} UnmarshalVT={st vt} go:{goSame}{alias}"
   pure { agree := dis.isEmpty, spec := true, excluded := true, sig := sig,
          why := match dis with | w :: _ => s!"{name} [{note}]: {w}" | [] => "",
          cover := ["stream:raw", s!"raw:{cls}", "domain:excluded", s!"msg:{name}"],
